@@ -38,6 +38,8 @@ type tableSpec struct {
 	Expected func(v map[string]string) [][]string
 	// paths to skip entirely (e.g. loop exit)
 	Skip func(pa *Path) bool
+	// AllowCycle: paths ending at the revisit of an inner loop are ordinary
+	AllowCycle bool
 }
 
 func canonOutcome(o []string) string {
@@ -67,7 +69,7 @@ func (c *Ctx) runTable(ts *tableSpec, fnLabel, pos string, paths []*Path) int {
 		if ts.Skip != nil && ts.Skip(pa) {
 			continue
 		}
-		if pa.End.Kind == "cycle" || pa.End.Kind == "panic" {
+		if pa.End.Kind == "cycle" && !ts.AllowCycle || pa.End.Kind == "panic" {
 			o := c.undecided(ts.Rule, fmt.Sprintf("%s/path-ends-in-%s", fnLabel, pa.End.Kind), pos, "region "+ts.Region+" contains a path ending in "+pa.End.Kind+": shape not recognised")
 			o.PathDump = dumpPath(c.P, i, pa)
 			continue
